@@ -253,6 +253,10 @@ def wire_worker(args):
     cases, metas = [], []
     for i in range(n):
         managers = [m for m in WIRE_MANAGERS if r.random() < 0.4]
+        if r.random() < 0.35:
+            # plug-ins that announce the same identity (and feature) more than once: two instances, or one next to the RPC manager
+            d_ = r.choice(["dupident", "dupident-named"])
+            managers += [d_] * r.choice([1, 2, 3])
         opts = {}
         if r.random() < 0.7:
             opts["clientName"] = tok(r, r.choice([1, 6, 20]))
